@@ -12,11 +12,7 @@ inline(SS + 'const_int', SS + 'const_double', SS + 'const_string', SS + 'const_b
        'giscanner.sourcescanner.SourceType.__init__', 'giscanner.sourcescanner.SourceSymbol.__init__')
 
 # --- assumed contracts of the surrounding transformer functions (not verified here) ---
-contract(T + '_create_type_from_base',
-         params={'self': 'Transformer', 'source_type': 'SourceType', 'is_parameter': 'bool', 'is_return': 'bool'},
-         returns='Type', fresh_result=True, trusted=True,
-         ensures={'has_ctype': 'result.ctype is not None'},
-         note='declared type of the symbol; C02 covers its construction')
+# _create_type_from_base: see c02_defaults.py (verified there; the clause `has_ctype` is what _create_const relies on)
 contract(T + '_resolve_type_from_ctype', params={'self': 'Transformer', 'typeval': 'Type'}, returns='bool',
          requires=['typeval.ctype is not None'],
          modifies=['typeval.target_giname'], raises={'KeyError': 'maybe'}, trusted=True,
@@ -75,7 +71,10 @@ def is_public_header_symbol(symbol):
 contract(T + '_create_const',
          params={'self': 'Transformer', 'symbol': 'SourceSymbol'},
          returns='Constant?', props=('C13',), modifies=['*.target_giname'],
-         requires=['symbol.ident is not None', 'not self._symbol_filter_cmd'],
+         requires=['symbol.ident is not None', 'not self._symbol_filter_cmd',
+                   # data invariant of the C lexer's types: a pointer type has a pointee
+                   'implies(symbol._symbol.base_type is not None and symbol._symbol.base_type.type == sourcescanner.CTYPE_POINTER, '
+                   'symbol._symbol.base_type.base_type is not None)'],
          raises={'TransformerException': 'True', 'KeyError': 'True',
                  'AssertionError': "symbol.const_string is None and symbol.const_int is None and "
                                    "symbol.const_boolean is None and symbol.const_double is None"},
